@@ -162,6 +162,26 @@ def _assign_case(seed):
             len_diff = ln - (exons[-1][1] - exons[-1][0] + 1)
             a = exons[-1][1] + far
             read[-1] = (a, a + ln - 1)
+    elif rng2.random() < .09:
+        # two extra exons outside the isoform on one side (two unannotated introns), the outermost one short enough to pass for a fake
+        # terminal exon (10-35 bp): extra exons are a structural difference whatever the length of the outermost piece
+        kind = "two_extra_outer_exons"
+        short, mid = rng2.randint(10, 35), rng2.randint(80, 160)
+        g1, g2 = rng2.randint(200, 600), rng2.randint(200, 600)
+        read = list(exons)
+        if rng2.random() < .5:
+            b2 = exons[0][0] - g1
+            a2 = b2 - mid
+            b1 = a2 - g2
+            a1 = b1 - short
+            if a1 < 1:
+                return None, []
+            read = [(a1, b1), (a2, b2)] + read
+        else:
+            a2 = exons[-1][1] + g1
+            b2 = a2 + mid
+            a1 = b2 + g2
+            read = read + [(a2, b2), (a1, a1 + short)]
     elif kind == "skipped_exon":
         big = [i for i in range(1, len(exons) - 1) if exons[i][1] - exons[i][0] >= 150]
         if not big:
